@@ -14,7 +14,9 @@ from .. import core, tex
 WS = [' ', '\n', '  ', '\n  ', ' \n', '\t', ' \n ', '\n\t']
 WS_INLINE = [' ', '  ', '\t']
 PARS = ['\n\n', '\n \n', '\n\n\n', ' \n\t\n ', '\\par', '\\par ', '\n\\par\n', 'PROOF', 'MINI', 'VERB', 'LST', 'THM',
-        '\n\n\n\n', '\n  \n  \n', 'BIB']
+        '\n\n\n\n', '\n  \n  \n', 'BIB',
+        # blank lines in files with CR LF line ends, a form feed on a line of its own
+        '\r\n\r\n', '\n\x0c\n', '\r\n \r\n', '\n\x0b\n']
 
 VANISH = ['com', 'label', 'index', 'unk', 'unkarg', 'skip', 'tikz', 'ltskip', 'vanish2', 'unkenv_b', 'unkenv_e',
           'lang', 'xspace', 'vspace', 'ygap', 'ytodo', 'olang']
